@@ -183,7 +183,8 @@ LeafNode(l) ==
    may |-> CASE l.k \in {"coef", "cof"} -> {l.id} [] l.k = "form" -> FormCoefs(l.id) [] OTHER -> {},
    deg |-> CASE l.k \in {"coef", "cof"} -> [Deg0 EXCEPT ![l.id] = 1]
              [] l.k = "form" -> FormDeg(l.id) [] OTHER -> Deg0,
-   dif |-> TRUE, hasact |-> FALSE, idl |-> l.k \in {"coarg", "arg"}, isform |-> l.k = "form"]
+   dif |-> TRUE, hasact |-> FALSE, idl |-> l.k \in {"coarg", "arg"}, isform |-> l.k = "form",
+   isco |-> l.k = "coarg", hasform |-> l.k = "form"]
 
 WeightSeq == <<QI(0), QI(1), QI(-1), QI(2), QN(1, 2)>>
 ZeroSigs == << <<>>, <<Slot(0, SV, FALSE)>>, <<Slot(0, SW, FALSE)>>,
@@ -262,10 +263,12 @@ Init == /\ store = [i \in 1..Len(LeafSeq) |-> LeafNode(LeafSeq[i].l)]
                   [q \in LeafNode(LeafSeq[i].l).may |-> LeafT(LeafSeq[i].l, Perturb(EnvBase, q))]]
 
 \* isform: ufl holds the node as a Form (a sum of integrals), not as a FormSum / Action / ...
+\* isco: ufl holds the node as a Coargument; hasform: a variational form occurs in the node
+\* (both FALSE unless set with EXCEPT)
 Node(op, a, b, kind, args, may, deg, dif, hasact, idl, isform) ==
   [op |-> op, a |-> a, b |-> b, w |-> 0, q |-> 0, dir |-> 0, z |-> 0, lk |-> "", id |-> 0,
    kind |-> kind, args |-> args, may |-> may, deg |-> deg, dif |-> dif, hasact |-> hasact, idl |-> idl,
-   isform |-> isform]
+   isform |-> isform, isco |-> FALSE, hasform |-> FALSE]
 Push(nd) == /\ NOps(store) < MaxOps
             /\ Viable(Append(store, nd))
             /\ store' = Append(store, nd)
@@ -282,18 +285,21 @@ AddSub(op) ==
     LET x == store[i]  y == store[j] IN
     /\ x.kind = y.kind /\ x.args = y.args
     /\ x.kind = "bf" \/ (x.kind = "coef" /\ op = "add")
-    /\ Push(Node(op, i, j, x.kind, x.args, x.may \cup y.may, DegMax(x.deg, y.deg),
-                 x.dif /\ y.dif, x.hasact \/ y.hasact, x.idl /\ y.idl, x.isform /\ y.isform))
+    /\ Push([Node(op, i, j, x.kind, x.args, x.may \cup y.may, DegMax(x.deg, y.deg),
+                  x.dif /\ y.dif, x.hasact \/ y.hasact, x.idl /\ y.idl, x.isform /\ y.isform)
+             EXCEPT !.hasform = x.hasform \/ y.hasform])
 Neg ==
   \E i \in DOMAIN store :
     LET x == store[i] IN
     /\ x.kind = "bf"
-    /\ Push(Node("neg", i, 0, "bf", x.args, x.may, x.deg, x.dif, x.hasact, x.idl, x.isform))
+    /\ Push([Node("neg", i, 0, "bf", x.args, x.may, x.deg, x.dif, x.hasact, x.idl, x.isform)
+             EXCEPT !.hasform = x.hasform])
 Scale ==
   \E i \in DOMAIN store, w \in Weights :
     LET x == store[i] IN
     /\ x.kind = "bf"
-    /\ Push([Node("scale", i, 0, "bf", x.args, x.may, x.deg, x.dif, x.hasact, x.idl, x.isform) EXCEPT !.w = w])
+    /\ Push([Node("scale", i, 0, "bf", x.args, x.may, x.deg, x.dif, x.hasact, x.idl, x.isform)
+             EXCEPT !.w = w, !.hasform = x.hasform])
 \* ufl.action(A, B)
 Act ==
   \E i, j \in DOMAIN store :
@@ -307,11 +313,21 @@ Act ==
     \* ufl.action(Form, e) is compute_form_action, which needs e.ufl_function_space(): a sum of
     \* coefficients is accepted (and distributed) by Action only
     /\ (y.kind = "coef" /\ y.op # "leaf") => ~x.isform
+    \* identity acting on identity: nothing to contract
+    /\ ~(x.idl /\ y.idl)
     \* formoperators.derivative: "Action derivative not supported when the left argument is not
-    \* a 1-form"; the Leibniz rule there assumes the right operand contributes no slots
-    /\ Push(Node("act", i, j, "bf", ra, x.may \cup y.may, DegSum(x.deg, y.deg),
-                 Len(x.args) = 1 /\ Len(y.args) = 1 /\ y.kind # "arg" /\ x.dif /\ y.dif,
-                 TRUE, x.idl /\ y.idl, x.isform /\ y.kind \in {"coef", "arg"}))
+    \* a 1-form"; the Leibniz rule there assumes the right operand contributes no slots, and it
+    \* takes action(left, d(right)) through compute_form_action, which a Form as left operand of
+    \* an Action object (only possible inside a distributed FormSum) does not support
+    /\ Push([Node("act", i, j, "bf", ra, x.may \cup y.may, DegSum(x.deg, y.deg),
+                  /\ Len(x.args) = 1 /\ Len(y.args) = 1 /\ y.kind # "arg" /\ x.dif /\ y.dif
+                  /\ (y.kind = "coef" => (x.isform \/ ~x.hasform)),
+                  TRUE, x.idl /\ y.idl,
+                  \* Action.__new__ returns the other operand for an identity (Coargument/Argument)
+                  IF x.isco THEN y.isform
+                  ELSE IF y.isco \/ y.kind = "arg" THEN x.isform
+                  ELSE x.isform /\ y.kind = "coef")
+             EXCEPT !.hasform = x.hasform \/ y.hasform])
 \* ufl.adjoint(A): adjoint.py "Can only take Adjoint of a 2-form"
 Adj ==
   \E i \in DOMAIN store :
@@ -320,10 +336,11 @@ Adj ==
     \* formoperators.derivative: "Adjoint derivative is not supported."
     \* adjoint.py: "the adjoint of a coargument c is its first argument", the primal
     \* Argument(V, 0): an identity that is not a BaseForm (kind "arg")
-    /\ IF x.op = "leaf" /\ x.lk = "coarg"
+    /\ IF x.isco
        THEN Push(Node("adj", i, 0, "arg", <<Slot(0, x.args[1].sp, TRUE), Slot(0, x.args[1].sp, FALSE)>>,
                       {}, Deg0, FALSE, FALSE, TRUE, FALSE))
-       ELSE Push(Node("adj", i, 0, "bf", AdjArgs(x.args), x.may, x.deg, FALSE, x.hasact, x.idl, x.isform))
+       ELSE Push([Node("adj", i, 0, "bf", AdjArgs(x.args), x.may, x.deg, FALSE, x.hasact, x.idl, x.isform)
+                  EXCEPT !.hasform = x.hasform])
 Zero ==
   \E z \in ZeroSel :
     Push([Node("zero", 0, 0, "bf", ZeroSigs[z], {}, Deg0, TRUE, FALSE, FALSE, FALSE) EXCEPT !.z = z])
@@ -342,8 +359,11 @@ Der ==
                   ELSE [x.deg EXCEPT ![q] = MaxI(0, @ - 1), ![dir] = @ + 1],
                   \* the derivative of an Action is a sum of Actions whose left operand is an
                   \* Adjoint: a second derivative is refused by design
-                  x.dif /\ ~x.hasact, x.hasact, FALSE, x.isform)
-             EXCEPT !.q = q, !.dir = dir])
+                  x.dif /\ ~x.hasact, x.hasact,
+                  \* D_c c is the Coargument (the identity): apply_derivatives returns the direction
+                  x.op = "leaf" /\ x.lk = "cof" /\ x.id = q /\ dir = 0, x.isform)
+             EXCEPT !.q = q, !.dir = dir, !.hasform = x.hasform,
+                    !.isco = x.op = "leaf" /\ x.lk = "cof" /\ x.id = q /\ dir = 0])
 
 Next == AddSub("add") \/ AddSub("sub") \/ Neg \/ Scale \/ Act \/ Adj \/ Zero \/ Der
 Spec == Init /\ [][Next]_vars
